@@ -309,7 +309,25 @@ func (e *fnEnc) applyContract(con *Contract, args []Term, res []Term, pos token.
 			e.curHeap[a] = e.heapVersion(h)
 		}
 	} else if !con.External {
-		e.havocAllHeaps()
+		// no assigns clause: the heap keys the callee's code can write (by type safety)
+		if f := e.V.P.Funcs[con.Key]; f != nil {
+			ws := e.V.inferredWrites(f)
+			if ws["*"] {
+				e.havocAllHeaps()
+			} else {
+				for _, k := range sortedBoolKeys(ws) {
+					h := U.heapByKey(k)
+					if h == nil {
+						h = U.heaps[k]
+					}
+					if h != nil {
+						e.curHeap[k] = e.heapVersion(h)
+					}
+				}
+			}
+		} else {
+			e.havocAllHeaps()
+		}
 	}
 	post := e.curHeap.clone()
 	e.applyContractAt(con, args, res, pos, guard, name, pre, post, nil)
@@ -485,7 +503,10 @@ func (e *fnEnc) builtin(in ssa.Instruction, b *ssa.Builtin, cc *ssa.CallCommon) 
 		e.unsupported(in, "copy")
 		return e.havocValue(v, "copy")
 	case "recover":
-		return e.havocValue(v, "recover")
+		r := e.havocValue(v, "recover")
+		// `recovered` in this function's contract: did recover() return non-nil?
+		e.params["recovered"] = Term{S: fmt.Sprintf("(not (= %s nilAny))", r[0].S), Sort: "Bool"}
+		return r
 	case "delete":
 		e.note("delete on map abstracted")
 		return nil
